@@ -230,6 +230,13 @@ func (ms MultipleSubs) Sanitize() error {
 	return nil
 }
 
+func (as AlternateSubs) Sanitize() error {
+	if exp, got := as.Coverage.Len(), len(as.AlternateSets); exp != got {
+		return fmt.Errorf("GSUB: invalid AlternateSubs sets count (%d != %d)", exp, got)
+	}
+	return nil
+}
+
 func (ls LigatureSubs) Sanitize() error {
 	if exp, got := ls.Coverage.Len(), len(ls.LigatureSets); exp != got {
 		return fmt.Errorf("GSUB: invalid LigatureSubs sets count (%d != %d)", exp, got)
